@@ -19,12 +19,26 @@ func ExportNetwork(network *Network, basePath string) error {
 		dirPath = filepath.Join(basePath, netName)
 	}
 
+	// every bus is exported to its own file by its own worker:
+	// two buses must not map to the same file name
+	buses := network.Buses()
+	fileNames := make(map[string]bool, len(buses))
+	for _, bus := range buses {
+		fileName := clearSpaces(bus.name) + dbc.FileExtension
+		if fileNames[fileName] {
+			return network.errorf(&NameError{
+				Name: bus.name,
+				Err:  ErrIsDuplicated,
+			})
+		}
+		fileNames[fileName] = true
+	}
+
 	err := os.MkdirAll(dirPath, 0666)
 	if err != nil {
 		return err
 	}
 
-	buses := network.Buses()
 	wg := &sync.WaitGroup{}
 
 	for _, bus := range buses {
